@@ -33,29 +33,29 @@ Proof.
 Qed.
 
 Theorem chain_class : forall wf,
-  wf_ok wf = true -> forallb single_input wf = true -> model_run wf = Some (spec_run wf).
+  wf_ok wf = true -> zip_len_ok wf = true -> forallb single_input wf = true -> model_run wf = Some (spec_run wf).
 Proof.
-  intros wf H1 H2. apply partial. unfold c03_domain.
+  intros wf H1 Z H2. apply partial; [|exact Z]. unfold c03_domain.
   rewrite H1, (single_input_separate wf H2). reflexivity.
 Qed.
 
 (* a concrete, non-trivial member: N0 split over two fields -> N1 relay -> N2 with an own splitter and a
    combiner over an inherited axis; N3 fans N2 out again *)
 Definition chain_example : workflow :=
-  [ {| n_fields := [BSplit [1; 2]%Z; BSplit [5; 6; 7]%Z]; n_split := [1; 0]; n_comb := [] |};
-    {| n_fields := [BUp 0; BConst 9%Z]; n_split := []; n_comb := [] |};
-    {| n_fields := [BSplit [3; 4]%Z; BUp 1; BUp 1]; n_split := [0]; n_comb := [(0, 0)] |};
-    {| n_fields := [BUp 2]; n_split := []; n_comb := [] |} ].
+  [ {| n_fields := [BSplit [1; 2]%Z; BSplit [5; 6; 7]%Z]; n_split := [1; 0]; n_zip := []; n_osel := []; n_comb := [] |};
+    {| n_fields := [BUp 0; BConst 9%Z]; n_split := []; n_zip := []; n_osel := []; n_comb := [] |};
+    {| n_fields := [BSplit [3; 4]%Z; BUp 1; BUp 1]; n_split := [0]; n_zip := []; n_osel := []; n_comb := [(0, 0)] |};
+    {| n_fields := [BUp 2]; n_split := []; n_zip := []; n_osel := []; n_comb := [] |} ].
 Lemma chain_example_in_class :
   wf_ok chain_example = true /\ forallb single_input chain_example = true.
 Proof. split; vm_compute; reflexivity. Qed.
 
 (* fan-in of independent origins inside C03_partial's class *)
 Definition fanin_example : workflow :=
-  [ {| n_fields := [BSplit [1; 2]%Z; BSplit [5; 6]%Z]; n_split := [0; 1]; n_comb := [] |};
-    {| n_fields := [BSplit [8; 9; 10]%Z]; n_split := [0]; n_comb := [] |};
-    {| n_fields := [BUp 0; BUp 1; BUp 1]; n_split := []; n_comb := [(0, 1)] |};
-    {| n_fields := [BUp 2; BSplit [3; 4]%Z]; n_split := [1]; n_comb := [] |} ].
+  [ {| n_fields := [BSplit [1; 2]%Z; BSplit [5; 6]%Z]; n_split := [0; 1]; n_zip := []; n_osel := []; n_comb := [] |};
+    {| n_fields := [BSplit [8; 9; 10]%Z]; n_split := [0]; n_zip := []; n_osel := []; n_comb := [] |};
+    {| n_fields := [BUp 0; BUp 1; BUp 1]; n_split := []; n_zip := []; n_osel := []; n_comb := [(0, 1)] |};
+    {| n_fields := [BUp 2; BSplit [3; 4]%Z]; n_split := [1]; n_zip := []; n_osel := []; n_comb := [] |} ].
 Lemma fanin_example_in_class : c03_domain fanin_example = true.
 Proof. vm_compute. reflexivity. Qed.
 
@@ -168,9 +168,9 @@ Proof.
 Qed.
 
 Theorem fanin_class : forall wf,
-  wf_ok wf = true -> independent_inputs wf = true -> model_run wf = Some (spec_run wf).
+  wf_ok wf = true -> zip_len_ok wf = true -> independent_inputs wf = true -> model_run wf = Some (spec_run wf).
 Proof.
-  intros wf H1 H2. apply partial. unfold c03_domain.
+  intros wf H1 Z H2. apply partial; [|exact Z]. unfold c03_domain.
   rewrite H1, (independent_separate wf H2). reflexivity.
 Qed.
 Lemma fanin_example_independent : independent_inputs fanin_example = true.
@@ -183,19 +183,33 @@ Proof. split; vm_compute; reflexivity. Qed.
 (* N0 split over vs (and us) -> N1 hands N0's state on -> N2 consumes N0 directly and through N1 (in either
    field order) and has an own splitter over ws; N3 consumes N2 *)
 Definition shared_direct (vs us ws : list Z) (flip : bool) : workflow :=
-  [ {| n_fields := [BSplit vs; BSplit us]; n_split := [0; 1]; n_comb := [] |};
-    {| n_fields := [BUp 0; BConst 7%Z]; n_split := []; n_comb := [] |};
-    {| n_fields := (if flip then [BUp 1; BUp 0] else [BUp 0; BUp 1]) ++ [BSplit ws]; n_split := [2]; n_comb := [] |};
-    {| n_fields := [BUp 2]; n_split := []; n_comb := [] |} ].
+  [ {| n_fields := [BSplit vs; BSplit us]; n_split := [0; 1]; n_zip := []; n_osel := []; n_comb := [] |};
+    {| n_fields := [BUp 0; BConst 7%Z]; n_split := []; n_zip := []; n_osel := []; n_comb := [] |};
+    {| n_fields := (if flip then [BUp 1; BUp 0] else [BUp 0; BUp 1]) ++ [BSplit ws]; n_split := [2]; n_zip := []; n_osel := []; n_comb := [] |};
+    {| n_fields := [BUp 2]; n_split := []; n_zip := []; n_osel := []; n_comb := [] |} ].
 Lemma shared_direct_aligned vs us ws flip : c03_aligned (shared_direct vs us ws flip) = true.
 Proof. destruct flip; vm_compute; reflexivity. Qed.
 Lemma shared_direct_not_separate : c03_domain (shared_direct [1; 2]%Z [3]%Z [4; 5]%Z false) = false.
 Proof. vm_compute. reflexivity. Qed.
 Theorem shared_direct_ok : forall vs us ws flip,
   model_run (shared_direct vs us ws flip) = Some (spec_run (shared_direct vs us ws flip)).
-Proof. intros. apply aligned. apply shared_direct_aligned. Qed.
+Proof. intros. apply aligned; [apply shared_direct_aligned | destruct flip; reflexivity]. Qed.
 (* the aligned job count: N2 runs |vs|*|us|*|ws| times, not (|vs|*|us|)^2*|ws| *)
 Lemma shared_direct_counts : spec_njobs (shared_direct [1; 2]%Z [3]%Z [4; 5]%Z false) = [2; 2; 4; 4]
   /\ option_map (map (fun v => match v with VList l => List.length l | _ => 0 end))
        (model_run (shared_direct [1; 2]%Z [3]%Z [4; 5]%Z false)) = Some [2; 2; 4; 4].
 Proof. split; vm_compute; reflexivity. Qed.
+
+(* ---------- members of C03_partial2's class with inner splitters, a partly consumed second output ---------- *)
+(* N0: splitter [(b, a), c] (a zipped to b), N1 consumes both outputs of N0 and combines the zip group by naming
+   both of its fields; N2 has an own inner pair as well *)
+Definition zip_example : workflow :=
+  [ {| n_fields := [BSplit [1; 2]%Z; BSplit [5; 6]%Z; BSplit [8; 9; 10]%Z]; n_split := [1; 2]; n_zip := [(0, 1)];
+       n_osel := []; n_comb := [] |};
+    {| n_fields := [BUp 0; BUp 0]; n_split := []; n_zip := []; n_osel := [1; 0]; n_comb := [(0, 0); (0, 1)] |};
+    {| n_fields := [BUp 1; BSplit [3; 4]%Z; BSplit [6; 7]%Z]; n_split := [2]; n_zip := [(1, 2)]; n_osel := [1];
+       n_comb := [] |} ].
+Lemma zip_example_in_class : c03_class2 zip_example = true.
+Proof. vm_compute. reflexivity. Qed.
+Lemma zip_example_njobs : spec_njobs (normalize zip_example) = [6; 6; 6].
+Proof. vm_compute. reflexivity. Qed.
